@@ -637,6 +637,12 @@ fn ids(v: &Val, out: &mut Vec<u32>) {
 }
 
 fn c09_rate(max_items: u32) {
+  c09_rate_x(max_items, false)
+}
+
+/// `twin`: the operator value is built once and a *clone* of it is subscribed a second time
+/// (its own hot input gets an item right before each of ours); our output must not change (C13).
+fn c09_rate_x(max_items: u32, twin: bool) {
   let w = 1 + e::choose(2) as u64;
   let op = match e::choose(6) {
     0 => RateOp::Debounce(w),
@@ -655,26 +661,40 @@ fn c09_rate(max_items: u32) {
     1 => ThrottleEdge::tailing(),
     _ => ThrottleEdge::all(),
   };
+  let probe_b = fresh_probe();
+  macro_rules! twin_sub {
+    ($o:expr) => {{
+      let o = $o;
+      if twin {
+        let o2 = o.clone();
+        let _ua = o.actual_subscribe(probe);
+        let _ub = o2.actual_subscribe(probe_b);
+      } else {
+        let _u = o.actual_subscribe(probe);
+      }
+    }};
+  }
   with_exec!(kind, |sd, exec| {
     let src = cat::hot();
     match op {
       RateOp::Debounce(w) => {
-        let _u = src.debounce(d(w), sd).actual_subscribe(probe);
+        twin_sub!(src.debounce(d(w), sd));
       }
       RateOp::Throttle(w, k) => {
-        let _u = src.throttle(move |_v: &Val| d(w), edge_of(k), sd).actual_subscribe(probe);
+        twin_sub!(src.throttle(move |_v: &Val| d(w), edge_of(k), sd));
       }
       RateOp::ThrottleTime(w, k) => {
+        // throttle_time's boxed selector is not Clone: a single subscription only
         let _u = src.throttle_time(d(w), edge_of(k), sd).actual_subscribe(probe);
       }
       RateOp::SampleInterval(w) => {
-        let _u = src.sample(observable::interval(d(w), sd).map(|n: usize| Val::c(n as i64)).on_error_map(|_: std::convert::Infallible| Val::c(0))).actual_subscribe(probe);
+        twin_sub!(src.sample(observable::interval(d(w), sd).map(|n: usize| Val::c(n as i64)).on_error_map(|_: std::convert::Infallible| Val::c(0))));
       }
       RateOp::BufferTime(w) => {
-        let _u = src.buffer_with_time(d(w), sd).map(|v: Vec<Val>| Val::L(v)).actual_subscribe(probe);
+        twin_sub!(src.buffer_with_time(d(w), sd).map(|v: Vec<Val>| Val::L(v)));
       }
       RateOp::BufferCountTime(n, w) => {
-        let _u = src.buffer_with_count_and_time(n, d(w), sd).map(|v: Vec<Val>| Val::L(v)).actual_subscribe(probe);
+        twin_sub!(src.buffer_with_count_and_time(n, d(w), sd).map(|v: Vec<Val>| Val::L(v)));
       }
     }
     exec_box = exec;
@@ -736,6 +756,11 @@ fn c09_rate(max_items: u32) {
     if timers_first {
       exec.run();
       model_exec_run!();
+    }
+    if twin {
+      if let Some(mut hb) = cat::handle_nth(0, 1) {
+        hb.next(Val::var());
+      }
     }
     e::note(format!("t={} source.{}", world::now(), world::show_ev(&ev)));
     feed(&mut h, &ev);
@@ -1230,6 +1255,7 @@ pub fn harnesses2() -> Vec<HarnessDef> {
   add("c08_timer", vec!["C08"], "timer: item once, not before the due time, then complete", |_| "delays 0..3; 4 optional-run steps of 0..2 then drain".to_string(), Box::new(|_| c08_timer()), 2_000_000, 2_000_000, false);
   add("c08_async", vec!["C08", "C13"], "from_future, from_future_result, from_stream, from_stream_result relay exactly the scripted values / error, nothing before the executor runs", |t| format!("futures pending 0..2 polls; streams of <= {} items each pending 0..1 polls, error at every position", if t { 4 } else { 3 }), Box::new(|t| c08_async(if t { 4 } else { 3 })), 2_000_000, 20_000_000, false);
   add("c09_rate", vec!["C09"], "debounce, throttle/throttle_time x {leading, tailing, all}, sample(interval), buffer_with_time, buffer_with_count_and_time on the virtual clock: only source items, at most once, in order; exact timed models for debounce and throttle; buffer laws", |t| format!("<= {} symbolic items with gaps 0..3; windows 1..2; at every instant timers-first or source-first; executor timely or late; LocalPool and ANY-order", if t { 4 } else { 3 }), Box::new(|t| c09_rate(if t { 4 } else { 3 })), 3_000_000, 40_000_000, true);
+  add("c13_rate_twin", vec!["C13"], "scheduler-using operators (debounce, throttle x3, sample, buffer_with_time, buffer_with_count_and_time): a clone of the same operator value subscribed a second time over its own hot input must not change the first subscription's output (no handle / buffer / window shared between subscriptions)", |t| format!("<= {} symbolic items; the twin's input gets an item right before each of ours", if t { 4 } else { 3 }), Box::new(|t| c09_rate_x(if t { 4 } else { 3 }, true)), 400_000, 40_000_000, true);
   add("c19_tasks", vec!["C19"], "schedule(): one-shot, subscribing and repeating tasks; cancellation at every point; run orders; never early, at most once / consecutive seq, nothing after unsubscribe() returned", |t| format!("{} tasks; delays none/0/1/2; periods 1..2; LocalPool and ANY-order", if t { 3 } else { 2 }), Box::new(|t| c19_tasks(if t { 3 } else { 2 })), 700_000, 40_000_000, true);
   add("c16_producers", vec!["C16"], "interval / from_iter(counting) / from_stream(endless) under intermediate operators and every early-terminating operator, producer in main and notifier position: no live task one period after the terminal, pulls bounded", |t| format!("{} intermediate operators; periods 1..2", if t { 2 } else { 1 }), Box::new(|t| c16_producers(if t { 2 } else { 1 })), 2_000_000, 20_000_000, true);
   v
